@@ -11,12 +11,12 @@ Variable expo : Q -> Q.
 Variable sqrt2 : Q.
 Variable sqrt2pi : Q.
 
-Notation update_cache := (update_cache erf expo).
-Notation sstep := (sstep erf expo sqrt2 sqrt2pi).
-Notation srun := (srun erf expo sqrt2 sqrt2pi).
-Notation sconstruct := (sconstruct erf expo sqrt2 sqrt2pi).
-Notation bins_loop := (bins_loop erf expo).
-Notation bin_psd := (bin_psd erf expo).
+Notation update_cache := (update_cache erf).
+Notation sstep := (sstep erf sqrt2 sqrt2pi).
+Notation srun := (srun erf sqrt2 sqrt2pi).
+Notation sconstruct := (sconstruct erf sqrt2 sqrt2pi).
+Notation bins_loop := (bins_loop erf).
+Notation bin_psd := (bin_psd erf).
 
 (* ------------------------------------------------------------------------------------------ *)
 (* the cache is a function of the parameters only                                               *)
@@ -222,10 +222,20 @@ Proof.
   rewrite (Qle_bool_ext x x' (s_max s) (s_max s)) by (auto; reflexivity). reflexivity.
 Qed.
 
+Lemma qmax_ext a a' b b' : a == a' -> b == b' -> qmax a b == qmax a' b'.
+Proof. intros Ea Eb. unfold qmax. rewrite (Qle_bool_ext a a' b b' Ea Eb). destruct (Qle_bool a' b'); assumption. Qed.
+
+Lemma qmin_ext a a' b b' : a == a' -> b == b' -> qmin a b == qmin a' b'.
+Proof. intros Ea Eb. unfold qmin. rewrite (Qle_bool_ext a a' b b' Ea Eb). destruct (Qle_bool a' b'); assumption. Qed.
+
 Lemma bin_psd_ext s d lo lo' hi hi' : lo == lo' -> hi == hi' -> bin_psd s d lo hi == bin_psd s d lo' hi'.
 Proof.
   intros El Eh. unfold C18_Spectrum.bin_psd. destruct (sk s) eqn:Hk.
-  - rewrite (s_eval_const_ext s lo lo' Hk El), (s_eval_const_ext s hi hi' Hk Eh). reflexivity.
+  - pose proof (qmax_ext lo lo' (s_min s) (s_min s) El (Qeq_refl _)) as Hl.
+    pose proof (qmin_ext hi hi' (s_max s) (s_max s) Eh (Qeq_refl _)) as Hu.
+    cbv zeta. rewrite (Qle_bool_ext _ _ _ _ Hu Hl).
+    destruct (Qle_bool (qmin hi' (s_max s)) (qmax lo' (s_min s))); [reflexivity|].
+    rewrite Hu, Hl, El, Eh. reflexivity.
   - rewrite (erf_ext ((hi - s_mean s) * s_ncdf s) ((hi' - s_mean s) * s_ncdf s)) by (rewrite Eh; reflexivity).
     rewrite (erf_ext ((lo - s_mean s) * s_ncdf s) ((lo' - s_mean s) * s_ncdf s)) by (rewrite El; reflexivity).
     reflexivity.
@@ -381,17 +391,27 @@ Proof.
   destruct (fresh_pow_nth SConst a Hv j Hj) as [_ E]. destruct (fresh_psd_nth SConst a Hv j Hj) as [_ E2].
   destruct (fresh_delta SConst a Hv) as [Ed Hd]. pose proof (fresh_span SConst a Hv) as Hs. fold s in E, E2, Ed, Hd, Hs.
   set (n := Z.to_nat (g_bins a)) in *. set (d := s_delta s) in *.
-  assert (In_range : forall i, (i <= n)%nat -> s_eval expo s (g_min a + qn i * d) = 1 / (g_max a - g_min a)).
-  { intros i Hi. unfold s_eval. change (sk s) with SConst. cbv iota. change (s_min s) with (g_min a). change (s_max s) with (g_max a).
+  assert (In_range : forall i, (i <= n)%nat -> g_min a <= g_min a + qn i * d /\ g_min a + qn i * d <= g_max a).
+  { intros i Hi.
     assert (Q0 : 0 <= qn i) by (unfold qn; change 0 with (inject_Z 0); rewrite <- Zle_Qle; lia).
     assert (Q1 : qn i <= qn n) by (unfold qn; rewrite <- Zle_Qle; lia).
-    assert (A : g_min a <= g_min a + qn i * d) by (assert (0 <= qn i * d) by (apply Qmult_le_0_compat; lra); lra).
-    assert (B : g_min a + qn i * d <= g_max a).
-    { rewrite <- Hs. assert (qn i * d <= qn n * d) by (apply Qmult_le_compat_r; lra). lra. }
-    apply Qle_bool_iff in A. apply Qle_bool_iff in B. rewrite A, B. reflexivity. }
+    split.
+    - assert (0 <= qn i * d) by (apply Qmult_le_0_compat; lra). lra.
+    - rewrite <- Hs. assert (qn i * d <= qn n * d) by (apply Qmult_le_compat_r; lra). lra. }
   assert (V : nth j (s_pow s) 0 == d * (1 / (g_max a - g_min a))).
-  { rewrite E, E2. unfold C18_Spectrum.bin_psd. change (sk s) with SConst. cbv iota.
-    rewrite (In_range j) by lia. rewrite (In_range (S j)) by lia. field. lra. }
+  { rewrite E, E2. unfold C18_Spectrum.bin_psd. change (sk s) with SConst. cbv iota zeta.
+    change (s_min s) with (g_min a). change (s_max s) with (g_max a).
+    destruct (In_range j ltac:(lia)) as [A1 _]. destruct (In_range (S j) ltac:(lia)) as [_ B2].
+    set (lo := g_min a + qn j * d) in *. set (hi := g_min a + qn (S j) * d) in *.
+    assert (W : hi - lo == d) by (unfold hi, lo; rewrite qn_S; ring).
+    assert (L : qmax lo (g_min a) == lo).
+    { unfold qmax. destruct (Qle_bool lo (g_min a)) eqn:T; [|reflexivity]. apply Qle_bool_iff in T. lra. }
+    assert (U : qmin hi (g_max a) == hi).
+    { unfold qmin. destruct (Qle_bool hi (g_max a)) eqn:T; [reflexivity|].
+      apply Qle_bool_iff in B2. congruence. }
+    rewrite (Qle_bool_ext _ hi _ lo U L).
+    destruct (Qle_bool hi lo) eqn:T; [apply Qle_bool_iff in T; lra|].
+    rewrite U, L, W. field. split; lra. }
   split; [exact V|]. rewrite V, Ed, H4. field. split; [|lra]. rewrite <- H4. lra.
 Qed.
 
